@@ -704,6 +704,10 @@ class C09(Prop):
                     alt = sfxs[(j + 1 + i) % len(sfxs)][1] or b"\x5a"
                     yield Case({"op": op, "kind": kind, "unit": hx(raw), "suffix": hx(sfx), "alt": hx(alt)}, "valid",
                                tag=f"pdu-{kind}+{name}", keys=keys)
+        # CRC-flagged PDUs whose own trailer reads as what the decoder parses last (a TLV header "type, length" for
+        # Metadata / Finished / EOF, the start of a segment request for NAK), followed by octets that complete that item
+        # and by long continuations: the trailer and what follows it are not parameters
+        yield from self.trailer_cases(rng, thorough)
         # every accepted buffer, not only packed ones: perturbed PDUs and random octets
         for kind in MODELLED_PDUS:
             for _ in range(200 if thorough else 40):
@@ -719,6 +723,50 @@ class C09(Prop):
                 k2 = kind if rng.random() < 0.7 else rng.choice(MODELLED_PDUS)
                 yield Case({"op": "c09_pdu", "kind": k2, "unit": hx(bytes(buf)), "suffix": "", "alt": hx(rbytes(rng, 3))},
                            "any", tag=f"pdu-any-{k2}", keys=PDU_KEYS)
+
+    def trailer_cases(self, rng, thorough) -> Iterator[Case]:
+        def emit(kind, raw, sfxs, tag):
+            for j, sfx in enumerate(sfxs):
+                alt = sfxs[(j + 1) % len(sfxs)] or b"\x5a"
+                yield Case({"op": "c09_pdu", "kind": kind, "unit": hx(raw), "suffix": hx(sfx), "alt": hx(alt)}, "valid",
+                           tag=tag, keys=PDU_KEYS)
+
+        reps = 12 if thorough else 2
+        tlv_types = {"metadata": c08.TLV_TYPES, "finished": [1, 6, 6], "eof": [6]}
+        for kind in ("metadata", "finished", "eof"):
+            for i in range(reps * (len(c08.TLV_TYPES) if kind == "metadata" else 3)):
+                raw = gen_pdu(kind, rng, crc=1, large=i & 1)
+                t = tlv_types[kind][i % len(tlv_types[kind])]
+                # the trailer is an empty TLV of a type the decoder knows
+                fitted = c06v.refit_trailer(raw, t << 8)
+                yield from emit(kind, fitted, [b"", bytes(2), rbytes(rng, 2), rbytes(rng, 300), enc_tlv(6, rbytes(rng, 2)),
+                                               gen_pdu(rng.choice(MODELLED_PDUS), rng), fitted], f"pdu-{kind}-trailer-empty-tlv")
+                # the trailer is the header of a TLV whose value are the octets after the PDU
+                if kind == "finished" and t == 1:
+                    resp = enc_fs(rng, True)
+                    hdr, value = int.from_bytes(resp[:2], "big"), resp[2:]
+                else:
+                    value = rbytes(rng, rng.choice([1, 2, 4, 8, rng.randint(1, 60)]))
+                    hdr = t << 8 | len(value)
+                fitted = c06v.refit_trailer(raw, hdr)
+                yield from emit(kind, fitted, [value, value + bytes(2), value + rbytes(rng, 2), value + rbytes(rng, 300),
+                                               value + enc_tlv(6, rbytes(rng, 1)), value[:-1]], f"pdu-{kind}-trailer-tlv-header")
+        for i in range(reps * 4):
+            large = i & 1
+            w = 8 if large else 4
+            raw = gen_pdu("nak", rng, crc=1, large=large)
+            # the two trailer octets and the suffix together are whole segment requests (also when the last two octets
+            # of the buffer are taken for the trailer)
+            sfxs = [rbytes(rng, 2 * w - 2), rbytes(rng, 2 * w), rbytes(rng, 4 * w - 2), rbytes(rng, 4 * w), rbytes(rng, 2 * w + 2),
+                    rbytes(rng, 300), rbytes(rng, 2 * w * 20 - 2)]
+            yield from emit("nak", raw, sfxs, "pdu-nak-trailer-segment-request")
+        for i in range(reps * 2):
+            raw = gen_pdu("file_data", rng, crc=1, large=i & 1)
+            yield from emit("file_data", raw, [rbytes(rng, 2), rbytes(rng, 300), raw], "pdu-file_data-long-suffix")
+        for kind in ("ack", "prompt", "keep_alive"):
+            for i in range(reps):
+                raw = gen_pdu(kind, rng, crc=i & 1)
+                yield from emit(kind, raw, [rbytes(rng, 300), rbytes(rng, 2)], f"pdu-{kind}-long-suffix")
 
     def split_cases(self, rng, thorough) -> Iterator[Case]:
         reps = 60 if thorough else 14
